@@ -768,7 +768,8 @@ wrapped_interval<Number>::operator||(const wrapped_interval<Number> &x) const {
       delta =
           (m_end * wrapint(2, w)) - (m_start * wrapint(2, w)) + wrapint(1, w);
     }
-    return x | wrapped_interval<Number>(x.m_start, x.m_start + delta);
+    // x contains both end points of *this but not necessarily all of it
+    return join | wrapped_interval<Number>(x.m_start, x.m_start + delta);
   } else {
     return wrapped_interval<Number>::top();
   }
@@ -910,7 +911,8 @@ wrapped_interval<Number> wrapped_interval<Number>::widening_thresholds(
           (m_end * wrapint(2, w)) - (m_start * wrapint(2, w)) + wrapint(1, w);
     }
     // TODO: apply thresholds
-    return x | wrapped_interval<Number>(x.m_start, x.m_start + delta);
+    // x contains both end points of *this but not necessarily all of it
+    return join | wrapped_interval<Number>(x.m_start, x.m_start + delta);
   } else {
     return wrapped_interval<Number>::top();
   }
